@@ -9,11 +9,11 @@ package gohlslib
 import (
 	"bytes"
 	"context"
-	"net/http"
-	"runtime"
 	"errors"
 	"fmt"
+	"net/http"
 	"os"
+	"runtime"
 	"sort"
 	"strings"
 
@@ -27,12 +27,12 @@ import (
 
 // dunit is one decoded unit.
 type dunit struct {
-	track   int // index into cfg.Tracks
-	dts     int64 // fMP4: base time + accumulated durations (offset included); MPEG-TS: 90 kHz DTS
-	ptsOff  int64
-	dur     int64
-	sync    bool
-	data    [][]byte
+	track  int   // index into cfg.Tracks
+	dts    int64 // fMP4: base time + accumulated durations (offset included); MPEG-TS: 90 kHz DTS
+	ptsOff int64
+	dur    int64
+	sync   bool
+	data   [][]byte
 }
 
 type dfrag struct {
@@ -49,8 +49,8 @@ type dfragTrack struct {
 
 // dmedia is a decoded segment or part.
 type dmedia struct {
-	err   string
-	frags []dfrag // fMP4: one per moof; MPEG-TS: a single pseudo fragment
+	err           string
+	frags         []dfrag // fMP4: one per moof; MPEG-TS: a single pseudo fragment
 	tsPATPMTFirst bool
 }
 
@@ -67,18 +67,18 @@ func (d *dmedia) unitsOf(track int) []dunit {
 }
 
 type uriInfo struct {
-	uri        string // canonical
-	raw        string
-	kind       string // seg part init
-	stream     int
-	firstObs   int
-	lastObs    int
-	body       []byte
-	ct         string
-	dec        *dmedia
-	init       *fmp4.Init
-	gone       bool
-	checked    int
+	uri      string // canonical
+	raw      string
+	kind     string // seg part init
+	stream   int
+	firstObs int
+	lastObs  int
+	body     []byte
+	ct       string
+	dec      *dmedia
+	init     *fmp4.Init
+	gone     bool
+	checked  int
 }
 
 type plObs struct {
@@ -91,15 +91,15 @@ type plObs struct {
 }
 
 type obsStep struct {
-	write    int // index of the write after which this was observed
-	avail    bool
-	index    []byte
+	write     int // index of the write after which this was observed
+	avail     bool
+	index     []byte
 	idxStatus int
-	multi    *m3u.Multi
+	multi     *m3u.Multi
 	multiErrs []string
-	streams  []*plObs
+	streams   []*plObs
 	pathTable int
-	files    []string
+	files     []string
 }
 
 type viol struct {
@@ -109,29 +109,29 @@ type viol struct {
 }
 
 type e1run struct {
-	cfg     muxCfg
-	mi      *muxInst
-	model   *emodel
-	ops     []wunit
-	opData  [][][]byte
-	steps   []*obsStep
-	uris    map[string]*uriInfo // by canonical URI
-	uriList []*uriInfo
-	viols   []viol
-	query   string // raw query appended to playlist requests ("" none)
-	writeErr string
+	cfg        muxCfg
+	mi         *muxInst
+	model      *emodel
+	ops        []wunit
+	opData     [][][]byte
+	steps      []*obsStep
+	uris       map[string]*uriInfo // by canonical URI
+	uriList    []*uriInfo
+	viols      []viol
+	query      string // raw query appended to playlist requests ("" none)
+	writeErr   string
 	writeErrAt int
-	nObs    int
-	mp       *e1maps
-	c16      func(r *e1run, k int)
-	sizeHook func(r *e1run, ok bool)
-	finalHook func(r *e1run)
-	faulted  bool // a storage fault was injected: the reference model no longer applies, only retention rules do
-	medNext  []int
-	medCount []map[int]int
-	medEnd   []map[int]int64
-	props   map[string]bool // which properties' oracles are evaluated (nil: all)
-	fullFetch bool          // re-fetch every listed URI at every observation
+	nObs       int
+	mp         *e1maps
+	c16        func(r *e1run, k int)
+	sizeHook   func(r *e1run, ok bool)
+	finalHook  func(r *e1run)
+	faulted    bool // a storage fault was injected: the reference model no longer applies, only retention rules do
+	medNext    []int
+	medCount   []map[int]int
+	medEnd     []map[int]int64
+	props      map[string]bool // which properties' oracles are evaluated (nil: all)
+	fullFetch  bool            // re-fetch every listed URI at every observation
 }
 
 func (r *e1run) add(prop, sig, format string, a ...any) {
